@@ -20,9 +20,12 @@ C14AtMost(sel, nbest)    == Len(sel) <= nbest
 C14Uncorrelated(a, sel, thr, tol) == \A i, j \in DOMAIN sel : i # j => a[sel[i]][sel[j]] <= thr + tol
 C14AllDefined(m, sel)    == \A i \in DOMAIN sel : Defined(m, sel[i])
 (* every omitted feature has one of the three reasons *)
+(* an association value of exactly ExactOne (identical columns) is compared without tolerance *)
+ExactOne == 1000000
+Above(x, thr, tol) == IF x = ExactOne THEN x > thr ELSE x + tol > thr
 C14Reason(m, a, sel, feats, thr, nbest, tol, f) ==
   \/ ~Defined(m, f)
-  \/ \E g \in Rng(sel) : m[g] + tol >= m[f] /\ a[f][g] + tol > thr
+  \/ \E g \in Rng(sel) : m[g] + tol >= m[f] /\ Above(a[f][g], thr, tol)
   \/ Cardinality({g \in Rng(sel) : m[g] + tol >= m[f]}) >= nbest
 C14Omitted(m, a, sel, feats, thr, nbest, tol) ==
   \A f \in feats \ Rng(sel) : C14Reason(m, a, sel, feats, thr, nbest, tol, f)
